@@ -174,6 +174,17 @@ def run(tier, seed, lean):
     # rule recursion driven deep by the input
     deep_bad, deep_n, deep_samples = deep_recursion(tier)
     violations += deep_bad
+    # ... and the deep result handed to a template as an argument value (it becomes part of a memo key)
+    import realrun as rr_
+    for name, text, make in DEEP_ARGUMENTS:
+        mod, _ = rr_.compile_grammar(text)
+        for depth in (300, 3000):
+            deep_n += 1
+            r = rr_.run_real_api(mod.parse, make(depth), 0, True, limit=60.0)[0]
+            if r[0] != 'V':
+                violations.append({'key': f'deep-argument|{name}|{depth}', 'sig': f'deep-argument|{name}', 'kind': 'spec', 'case': name,
+                                   'finding_class': 'deep-argument-recursion' if r == ('X', 'RecursionError') and depth == 3000 else 'none',
+                                   'what': f'{name}: recursion depth {depth} through the input, result passed to a template: {r}'})
     cov = {
         'evaluations': evals + summ['coverage']['evaluations'] + deep_n + ncov['evaluations'],
         'distinct_nontrivial': len([j for j in jobs if j['want']]),
@@ -275,6 +286,16 @@ DEEP = [
     ('class', 'start = E\nclass Box { pass "{"; inner: E; pass "}" }\nE = Box | "x"\n', lambda d: '{' * d + 'x' + '}' * d, None),
     ('operator table', 'start = E\nE = A between {\n mixfix: "(" >> E << ")"\n left: "+"\n}\nA = "x"\n',
      lambda d: '(' * d + 'x' + ')' * d + '+x', None),
+]
+
+
+DEEP_ARGUMENTS = [
+    ('deep object as argument', 'start = let tree = Nest in Tail(tree)\nclass Nest { open: "("; child: Nest?; close: ")" }\nTail(t) = ";" >> `t`\n',
+     lambda d: '(' * d + ')' * d + ';'),
+    ('deep list as argument, same call twice at one position', 'start = let tree = Nest in (Tail(tree) << "!" | Tail(tree))\nNest = ["(", Nest?, ")"]\nTail(t) = ";" >> `t`\n',
+     lambda d: '(' * d + ')' * d + ';'),
+    ('argument closing over the parameter of its own template', 'start = W("x")\nW(x) = ("(" >> W(["-", x]) << ")") | x\n',
+     lambda d: '(' * d + '-' * d + 'x' + ')' * d),
 ]
 
 
